@@ -156,11 +156,24 @@ Definition roundtrips_strong (words : list (string * bool)) (pu : units -> strin
       /\ (forall D, unser words pu f' e s (cbor_norm D w) = Ok n)
       /\ (forall n2, unser words pu f' e s w = Ok n2 -> serialize words pu f' e s n2 = Ok w).
 
+(* an inlined discriminator property whose type reads the raw discriminator exactly as the one-of itself does
+   (intInputMapper / stringInputMapper without units) and returns it as a plain int64 / string *)
+Definition disc_plain (t : schema) : bool :=
+  match t with
+  | SInt _ _ None | SEnumInt _ None | SString _ _ _ | SEnumStr None _ => true
+  | _ => false
+  end.
+Definition c01_member_plain (e : env) (field : string) (km : okey * schema) : bool :=
+  match member_props e (snd km) with
+  | Some ps => match alookup field ps with Some p => disc_plain (p_type p) | None => false end
+  | None => false
+  end.
+
 (* the schemas covered: with oneofs = false no one-of node anywhere (schema, scope objects, namespaces);
-   with oneofs = true one-of nodes whose discriminator is not inlined *)
+   with oneofs = true one-of nodes whose discriminator is not inlined, or inlined with a plain type in every member *)
 Definition c01_local (oneofs : bool) (e : env) (s : schema) : bool :=
   match s with
-  | SOneOf _ _ _ inlined => oneofs && negb inlined
+  | SOneOf types _ field inlined => oneofs && (negb inlined || forallb (c01_member_plain e field) types)
   | _ => true
   end.
 Definition c01_scope (oneofs : bool) (e : env) (s : schema) : bool :=
